@@ -109,6 +109,12 @@ func genG1(r rng, n int, t *testing.T) []*Scenario {
 			case 1:
 				sc.Instances[i].Promote = "sleepctx"
 				sc.Instances[i].PromoteNs = r.between(0, 3*h)
+			case 2:
+				if r.chance(0.4) {
+					// a callback that ignores its context and outlives Stop's wait
+					sc.Instances[i].Promote = "sleep"
+					sc.Instances[i].PromoteNs = r.pick(h, 3*sec, 6*sec, 9*sec)
+				}
 			}
 			if r.chance(0.3) {
 				sc.Instances[i].DemoteNs = r.between(0, h)
@@ -118,7 +124,7 @@ func genG1(r rng, n int, t *testing.T) []*Scenario {
 			}
 		}
 		span := h * r.pick(8, 12, 20)
-		sc.Until = span
+		sc.Until = span + 7*sec
 		for i := range sc.Instances {
 			at := r.between(0, span/3)
 			if i == 0 {
@@ -378,6 +384,16 @@ func genG5(r rng, n int, t *testing.T) []*Scenario {
 			sc.Actions = append(sc.Actions, Action{At: r.between(h, at), Do: "ext_put", Key: "g", Str: `{"id":"intruder","token":"x","priority":1}`})
 		}
 		if r.chance(0.3) {
+			// the reads of the reconnect verification fail (first probe, or only the validation read)
+			for _, a := range sc.Actions {
+				if a.Do == "conn" && a.Ev == "reconnect" {
+					sc.Rules = append(sc.Rules, Rule{Inst: "n1", Kind: "get", Site: r.pick2("validateToken", "verifyLeadershipAfterReconnect", "validateToken"),
+						FromT: a.At, ToT: a.At + 400*ms, Pre: -1, Post: -1, Fault: r.pick2("err", "timeout")})
+					sc.HangNs = 3 * sec
+				}
+			}
+		}
+		if r.chance(0.3) {
 			sc.Instances[0].Script = append(sc.Instances[0].Script, Action{After: r.between(h, at+eff), Do: r.pick2("stop", "stop_ctx"), Delete: r.chance(0.5), Wait: r.chance(0.5)})
 		}
 		sc.Until = at + 2*eff + 4*h
@@ -609,7 +625,11 @@ func genG8(r rng, n int, t *testing.T) []*Scenario {
 			}
 			wp.Delay = [2]int64{0, r.pick(0, h, 3*h)}
 			sc.Watch[id] = wp
-			if r.chance(0.25) {
+			if r.chance(0.2) {
+				// acquisition requests lost during a short outage right after the vacancy (they hang for a long
+				// time); reads are answered; the outage then ceases
+				sc.Rules = append(sc.Rules, Rule{Inst: id, Kind: "create", FromT: tv - r.between(0, h), ToT: tv + r.between(h/2, 3*h), Pre: -1, Post: -1, Fault: "timeout", Hang: 30 * sec})
+			} else if r.chance(0.25) {
 				// an outage around the vacancy that then ceases (calls issued during it hang for a long time)
 				from := tv - r.between(0, h)
 				sc.Rules = append(sc.Rules, Rule{Inst: id, FromT: from, ToT: tv + r.between(1, 3*h), Pre: -1, Post: -1, Fault: r.pick2("timeout", "err", "timeout"), Hang: r.pick(h, 30*sec)})
@@ -674,8 +694,9 @@ func genG9(r rng, n int, t *testing.T) []*Scenario {
 		if r.chance(0.5) {
 			// a health checker whose checks sometimes block (ignoring their context) across the loss
 			hp := &HealthPlan{Default: true}
+			healthy := r.pick2("0.9", "0.6", "0.5")
 			for j := 0; j < 40; j++ {
-				hp.Results = append(hp.Results, r.chance(0.9))
+				hp.Results = append(hp.Results, r.chance(map[string]float64{"0.9": 0.9, "0.6": 0.6, "0.5": 0.5}[healthy]))
 				d := int64(0)
 				if r.chance(0.35) {
 					d = r.pick(h/4, h/2, h, 2*h)
@@ -683,7 +704,7 @@ func genG9(r rng, n int, t *testing.T) []*Scenario {
 				hp.DurNs = append(hp.DurNs, d)
 			}
 			sc.Instances[0].Health = hp
-			sc.Instances[0].MaxHealth = int(r.between(2, 5))
+			sc.Instances[0].MaxHealth = int(r.between(1, 4))
 		}
 		sc.Grid = h / 2
 		out = append(out, sc)
